@@ -103,7 +103,13 @@ def corpus_for(names):
 
 def load_replay(path):
     d = json.load(open(path))
-    return d["md"], d["cfg"], [tuple(normalize_op(o)) for o in d["ops"]]
+    ops = []
+    for o in d["ops"]:
+        if o[0] == "repeat":          # ["repeat", n, op]: the same operation n times (long walks of a counter)
+            ops += [tuple(normalize_op(o[2]))] * int(o[1])
+        else:
+            ops.append(tuple(normalize_op(o)))
+    return d["md"], d["cfg"], ops
 
 def normalize_op(o):
     o = list(o)
